@@ -308,10 +308,12 @@ pub fn drive_cold(out: &mut dyn std::io::Write, threads: usize, round: u64) {
 /// every repetition must produce the same record; the first record and every record that DIFFERS from it are emitted, and each
 /// distinct (input, output) is validated against the function specifications. Shared mutable scratch anywhere in the library
 /// (a static buffer, a cached key schedule) shows up as a differing - and then rejected - record.
-const HOT_ALGS: [(&str, usize); 17] = [
+const HOT_ALGS: [(&str, usize); 23] = [
     ("Skein256", 64), ("Skein512", 128), ("Skein1024", 256), ("Skein256", 96), ("Skein512", 65), ("Skein1024", 129), ("Skein256", 32),
     ("Blake256", 0), ("Blake512", 0), ("Jh256", 0), ("Groestl256", 0), ("Groestl512", 0),
     ("ks:ChaCha20", 0), ("ks:Ietf", 0), ("tf:32", 0), ("tf:64", 0), ("tf:128", 0),
+    // the same key under another tweak / another nonce length / another round count, adjacent in the loop so that they alternate
+    ("tf:32", 1), ("tf:64", 1), ("tf:128", 1), ("ks:XChaCha20", 0), ("ks:ChaCha8", 0), ("ks:XChaCha8", 0),
 ];
 
 pub fn drive_hot(out: &mut dyn std::io::Write, threads: usize, iters: usize, round: u64) {
@@ -337,7 +339,7 @@ pub fn drive_hot(out: &mut dyn std::io::Write, threads: usize, iters: usize, rou
                         let size: usize = sz.parse().unwrap();
                         let key: Vec<u8> = (0..size).map(|i| (i * 11 + t + 1) as u8).collect();
                         let x: Vec<u8> = (0..size).map(|i| (i * 5 + 3 * t) as u8).collect();
-                        crate::tf::ev(&mut rec, size, &key, 0x0101_0101 * (t as u64 + 1), 77 + t as u64, false, &x, "hot", "hot");
+                        crate::tf::ev(&mut rec, size, &key, 0x0101_0101 * (t as u64 + 1) + n as u64, 77 + t as u64 + 1000 * n as u64, false, &x, "hot", "hot");
                     } else {
                         let len = 1 + (t * 7 + ai) % 150;
                         let msg: Vec<u8> = (0..len).map(|i| (i * 5 + t) as u8).collect();
